@@ -9,20 +9,20 @@ NO_RETRY = ("bankmixed",)
 #       8 history_lookup 9 holding 10 address_transactions 11 pn_winners 12 pn_grade 13 synced 14 sync_version
 TABLE = {
     # id: (scenarios quick, extra scenarios thorough, tags, functional, what)
-    "C03": (["eras", "bankmixed", "corners", "bank"], ["staking", "dups", "admission"], [1, 6], False, "balances and batch status"),
-    "C04": (["eras", "bank", "zeroing", "corners", "align"], ["staking", "rates", "admission"], [1], True, "balances (per-asset supply is their column sum)"),
-    "C06": (["dups", "corners", "gaps"], ["eras", "bank"], [1, 6, 9, 10], True, "balances, batch status, holding and relation rows"),
-    "C07": (["gaps", "corners", "avgzero"], ["eras", "admission", "bank"], [1, 6, 7, 9], True, "balances, execution height and converted amounts"),
+    "C03": (["eras", "bankmixed", "corners", "bank", "avgzero", "fuzz"], ["staking", "dups", "admission"], [1, 6], False, "balances and batch status"),
+    "C04": (["eras", "bank", "zeroing", "corners", "align", "fuzz"], ["staking", "rates", "admission"], [1], True, "balances (per-asset supply is their column sum)"),
+    "C06": (["dups", "corners", "gaps", "fuzz"], ["eras", "bank"], [1, 6, 9, 10], True, "balances, batch status, holding and relation rows"),
+    "C07": (["gaps", "corners", "avgzero", "fuzz"], ["eras", "admission", "bank"], [1, 6, 7, 9], True, "balances, execution height and converted amounts"),
     "C08": (["malformed", "dups", "corners", "gaps"], ["eras", "top100", "zerocollide", "bankmixed"], [13, 14], False, "which blocks apply"),
     "C09": (["gaps"], ["eras", "admission", "avgzero"], [1, 6, 7], True, "balances and converted amounts (pricing)"),
-    "C11": (["eras", "corners"], ["top100", "rates", "staking", "zeroing"], [1, 6, 7, 11, 12], True, "PEG/pFCT balances, coinbase and burn history, pn_winners, pn_grade"),
-    "C12": (["rates", "corners", "eras"], ["gaps", "staking"], [4, 6], True, "pn_rate rows and batch status"),
-    "C13": (["admission", "corners", "avgzero"], ["eras", "rates"], [1, 6], True, "balances and executed codes"),
-    "C14": (["staking"], ["eras", "zerocollide"], [1, 2, 3, 6, 7], True, "balances, snapshots and staking coinbase rows"),
+    "C11": (["eras", "corners", "fuzz"], ["top100", "rates", "staking", "zeroing"], [1, 6, 7, 11, 12], True, "PEG/pFCT balances, coinbase and burn history, pn_winners, pn_grade"),
+    "C12": (["rates", "corners", "eras", "fuzz"], ["gaps", "staking"], [4, 6], True, "pn_rate rows and batch status"),
+    "C13": (["admission", "corners", "avgzero", "fuzz"], ["eras", "rates"], [1, 6], True, "balances and executed codes"),
+    "C14": (["staking", "zeroing"], ["eras", "zerocollide", "fuzz"], [1, 2, 3, 6, 7], True, "balances, snapshots and staking coinbase rows"),
     "C15": (["align", "zeroing"], ["eras", "staking", "zerocollide"], [1, 6, 7], True, "balances of the listed addresses and coinbase rows"),
-    "C16": (["bank"], ["bankmixed", "eras"], [1, 5, 7], True, "balances, pn_bank rows, yields and refunds"),
-    "C17": (["bank", "dups", "corners", "avgzero"], ["eras", "staking", "admission"], [1, 6, 7, 8, 9, 10], True, "history, lookup, status and balances"),
-    "C01": (["eras", "staking"], ["bank", "top100"], list(range(1, 13)), True, "every ledger table"),
+    "C16": (["bank", "fuzz"], ["bankmixed", "eras"], [1, 5, 7], True, "balances, pn_bank rows, yields and refunds"),
+    "C17": (["bank", "dups", "corners", "avgzero", "eras", "fuzz"], ["staking", "admission"], [1, 6, 7, 8, 9, 10], True, "history, lookup, status and balances"),
+    "C01": (["eras", "staking", "fuzz"], ["bank", "top100"], list(range(1, 13)), True, "every ledger table"),
 }
 
 
